@@ -29,6 +29,11 @@ func (p ArrayPattern) Bind(ctx context.Context, local Scope, value Value) (conte
 	if !is {
 		return ctx, EmptyScope, fmt.Errorf("value %s is not an array", value)
 	}
+	if array.offset != 0 {
+		// An array pattern describes the items at indices 0, 1, 2, ...
+		return ctx, EmptyScope, fmt.Errorf("array %s starts at index %d, not 0, so it cannot match array pattern %s",
+			array, array.offset, p)
+	}
 
 	extraElements := make(map[int]int)
 	for i, item := range p.items {
